@@ -460,6 +460,7 @@ class Filterbank(ABC):
                     "nchans": 1,
                     "nsamples": tim_len,
                     "tstart": self.header.mjd_after_nsamps(start),
+                    "fch1": self.header.fch1 + ichan * self.header.foff,
                 },
             ),
         )
@@ -748,6 +749,7 @@ class Filterbank(ABC):
         if outfile_base is None:
             outfile_base = self.header.basename
         filenames = [f"{outfile_base}_chan{chan:04d}.tim" for chan in chans]
+        chan_fch1 = self.header.fch1 + chans * self.header.foff
 
         # Process in batches to avoid file open/close limits
         for batch_start in range(0, nchans_extract, batch_size):
@@ -765,11 +767,12 @@ class Filterbank(ABC):
                                 "nbits": 32,
                                 "data_type": "time series",
                                 "tstart": self.header.mjd_after_nsamps(start),
+                                "fch1": float(chan_fch1[batch_start + ifile]),
                             },
                             nbits=32,
                         ),
                     )
-                    for filename in batch_files
+                    for ifile, filename in enumerate(batch_files)
                 ]
                 for nsamps_r, _, data in self.read_plan(
                     gulp=gulp,
